@@ -65,6 +65,9 @@ def run(run, tier, seed, replay=None):
     report(run, "designs", bad, designs, outs)
     run.sample(dict(stream="designs", design=designs[len(designs) // 2]))
     run.coverage["traces_validated_against_impl"] = len(designs)
+    # C01E: the pipeline model (coq Model/C01EElab.v) against the implementation on the same designs
+    from . import c01e
+    c01e.run_tie(run, tier, seed, designs, outs)
 
 
 def corpus():
